@@ -3,10 +3,14 @@
 stdin : one JSON job {"pickles": [hex], "adds": [[dotted...]|null], "histories": [[op...]...],
                       "observe": "all"|"last"}
         op = "arm" | "arm2" | ["act", i] | "rm" | "rm2" | "enter" | "leave" | "leavex" |
-             ["probe", slot, k]
+             ["probe", slot, k] |
+             "mk" (construct a manager, do not enter it) | "enterp" (enter the oldest manager
+             constructed by "mk" and not entered yet; a new one if there is none) |
+             "reenter" (enter the innermost OPEN manager object a second time; a new one if none)
 stdout: one JSON line {"base": {...}, "runs": [[step...]...]}; a step holds the identity tokens
-        and classes of the four bindings, the probe matrix (4 entry points x pickles) when
-        observed, and the outcome of an explicit probe.
+        and classes of the five bindings (pickle.load, pickle.loads, _pickle.load, _pickle.loads,
+        pickle.Unpickler), the probe matrix (5 entry points x pickles) when observed, and the
+        outcome of an explicit probe.
 
 The originals are captured BEFORE fickling is imported; between histories the process state is
 reset by re-binding those originals (the parent also runs histories in fresh children)."""
@@ -16,8 +20,9 @@ import pickle
 import sys
 import _pickle
 
-SLOTS = ["pl", "pls", "cl", "cls"]
-ORIG = {"pl": pickle.load, "pls": pickle.loads, "cl": _pickle.load, "cls": _pickle.loads}
+SLOTS = ["pl", "pls", "cl", "cls", "unp"]
+ORIG = {"pl": pickle.load, "pls": pickle.loads, "cl": _pickle.load, "cls": _pickle.loads,
+        "unp": pickle.Unpickler}
 EVENTS = []
 ON = [False]
 
@@ -35,11 +40,13 @@ import fickling.ml as fml  # noqa: E402
 from fickling.exception import UnsafeFileError  # noqa: E402
 import verif_sink  # noqa: E402
 
-ORIG_UNPICKLER = pickle.Unpickler    # the safe ML environment replaces this attribute too (D11 repair)
-SEEN = [ORIG["pl"], ORIG["pls"]]     # keeps every function object alive => tokens are stable
+# the safe ML environment replaces pickle.Unpickler too (D11 repair)
+SEEN = [ORIG["pl"], ORIG["pls"], ORIG["unp"]]   # keeps every object alive => tokens are stable
 
 
 def current(slot):
+    if slot == "unp":
+        return pickle.Unpickler
     mod = pickle if slot in ("pl", "pls") else _pickle
     return getattr(mod, "load" if slot in ("pl", "cl") else "loads")
 
@@ -55,6 +62,22 @@ def token(fn):
 def classify(slot, fn):
     if fn is ORIG[slot]:
         return "O"
+    if isinstance(fn, type):
+        # class SafeMLUnpickler of activate_safe_ml_environment: its __init__ closes over also_allow
+        init = fn.__dict__.get("__init__")
+        code = getattr(init, "__code__", None)
+        clo = getattr(init, "__closure__", None)
+        if (code is not None and clo and "also_allow" in code.co_freevars
+                and issubclass(fn, fml.FicklingMLUnpickler)):
+            adds = clo[code.co_freevars.index("also_allow")].cell_contents
+            items = []
+            for a in (adds or []):
+                m, n = a.rsplit(".", 1)
+                items.append(f"{m}:{n}")
+            return "M(" + ",".join(items) + ")" + ("" if slot == "unp" else "!wrongkind")
+        return "X:" + getattr(fn, "__qualname__", repr(fn))
+    if slot == "unp":
+        return "X:" + getattr(fn, "__qualname__", repr(type(fn)))
     code = getattr(fn, "__code__", None)
     clo = getattr(fn, "__closure__", None)
     if code is not None and clo and "also_allow" in code.co_freevars:
@@ -76,7 +99,9 @@ def do_probe(slot, data):
     del EVENTS[:]
     ON[0] = True
     try:
-        if slot in ("pl", "cl"):
+        if slot == "unp":
+            fn(io.BytesIO(data)).load()
+        elif slot in ("pl", "cl"):
             fn(io.BytesIO(data))
         else:
             fn(data)
@@ -92,13 +117,17 @@ def do_probe(slot, data):
     return {"r": r, "n": len(EVENTS), "sink": len(verif_sink.LOG), "ev": list(EVENTS)}
 
 
+PENDING = []      # managers constructed by "mk" and not entered yet
+
+
 def reset(stack):
     pickle.load = ORIG["pl"]
     pickle.loads = ORIG["pls"]
     _pickle.load = ORIG["cl"]
     _pickle.loads = ORIG["cls"]
-    pickle.Unpickler = ORIG_UNPICKLER
+    pickle.Unpickler = ORIG["unp"]
     del stack[:]
+    del PENDING[:]
 
 
 def apply(op, stack, adds, pickles):
@@ -113,6 +142,16 @@ def apply(op, stack, adds, pickles):
         fhook.deactivate_safe_ml_environment()
     elif op == "enter":
         cm = fickling.check_safety()
+        cm.__enter__()
+        stack.append(cm)
+    elif op == "mk":
+        PENDING.append(fickling.check_safety())
+    elif op == "enterp":
+        cm = PENDING.pop(0) if PENDING else fickling.check_safety()
+        cm.__enter__()
+        stack.append(cm)
+    elif op == "reenter":
+        cm = stack[-1] if stack else fickling.check_safety()
         cm.__enter__()
         stack.append(cm)
     elif op == "leave":
@@ -153,8 +192,7 @@ def main():
             fns = [current(s) for s in SLOTS]
             st = {"ids": [token(f) for f in fns],
                   "cls": [classify(s, f) for s, f in zip(SLOTS, fns)],
-                  "depth": len(stack),
-                  "unp": "O" if pickle.Unpickler is ORIG_UNPICKLER else "R"}
+                  "depth": len(stack)}
             if err:
                 st["op_error"] = err
             if extra is not None:
